@@ -294,7 +294,9 @@ impl<'a, const BITS: usize, const LIMBS: usize> FromSql<'a> for Uint<BITS, LIMBS
                 });
                 #[allow(clippy::cast_sign_loss)]
                 // Expression can not be negative due to checks above
-                let iter = iter.chain(iter::repeat(0).take((exponent + 1 - digits) as usize));
+                let iter = iter.chain(
+                    iter::repeat(0).take((i32::from(exponent) + 1 - i32::from(digits)) as usize),
+                );
 
                 let value = Self::from_base_be(10000, iter)?;
                 if error {
